@@ -60,25 +60,55 @@ Proof.
   rewrite seg_list_nth by assumption. exact Hc.
 Qed.
 
+(* ---------------------------------------------------------------- encodeFrame outcome *)
+
+(* encodeFrame either refuses the frame (a segment offset does not fit 32 bits) or returns
+   the closed-form stream; it never panics or runs out of fuel on an accepted description. *)
+Lemma encode_ok_inv : forall g frame enc, geom_wide g -> zlen frame = frame_len g ->
+  rle_encode g frame = Ok enc ->
+  overflows (seg_list g frame) = false /\ enc = stream_of (seg_list g frame).
+Proof.
+  intros g frame enc Hg Hlen He. rewrite (rle_encode_closed g frame Hg Hlen) in He.
+  destruct (overflows (seg_list g frame)); [discriminate|]. apply Ok_inj in He. auto.
+Qed.
+
+(* Err exactly when an offset overflows *)
+Theorem rle_encode_err_iff : forall g frame, geom_ok g -> zlen frame = frame_len g ->
+  (rle_encode g frame = Err <-> overflows (seg_list g frame) = true) /\
+  (overflows (seg_list g frame) = false -> rle_encode g frame = Ok (stream_of (seg_list g frame))).
+Proof.
+  intros g frame Hg Hlen. rewrite (rle_encode_closed g frame (geom_ok_wide g Hg) Hlen).
+  destruct (overflows (seg_list g frame)); split; try split; intros; try reflexivity; try discriminate.
+Qed.
+
+(* what "overflows" means: the offset recorded for some segment j, i.e. 64 plus the padded
+   lengths of the segments before it, exceeds MaxUint32 *)
+Theorem overflows_iff : forall segs,
+  overflows segs = true <->
+  exists j, (j < length segs)%nat /\ 64 + zlen (body (firstn j segs)) > 4294967295.
+Proof.
+  intros segs. unfold overflows. rewrite existsb_exists. split.
+  - intros (o & Ho & Hgt). destruct (In_nth _ _ 0 Ho) as (j & Hj & <-).
+    rewrite offsets_from_length in Hj. rewrite offsets_from_nth in Hgt by assumption.
+    exists j. split; [assumption|]. destruct (Z.gtb_spec (64 + zlen (body (firstn j segs))) 4294967295); [lia|discriminate].
+  - intros (j & Hj & Hgt). exists (nth j (offsets_from 64 segs) 0). split.
+    + apply nth_In. rewrite offsets_from_length. assumption.
+    + rewrite offsets_from_nth by assumption.
+      destruct (Z.gtb_spec (64 + zlen (body (firstn j segs))) 4294967295); [reflexivity|lia].
+Qed.
+
 (* ---------------------------------------------------------------- round trip *)
 
-(* Encode always succeeds on an accepted description; Decode of its output returns the
-   frame (+ one zero byte when the native frame length is odd), provided the encoded frame
-   is at most 2^32 bytes long, i.e. every segment offset fits the 32-bit header field. *)
-Theorem rle_roundtrip_wide : forall g frame, geom_wide g -> bytesP frame -> zlen frame = frame_len g ->
-  exists enc, rle_encode g frame = Ok enc /\
-    (zlen enc <= 2 ^ 32 -> rle_decode g enc = Ok (frame ++ pad_of g)).
+(* Whenever Encode succeeds on an accepted description, Decode of its output returns the
+   frame (+ one zero byte when the native frame length is odd). No size hypothesis: the
+   encoded frame may even exceed 4 GiB as long as the last segment STARTS below 2^32. *)
+Theorem rle_roundtrip_wide : forall g frame enc, geom_wide g -> bytesP frame -> zlen frame = frame_len g ->
+  rle_encode g frame = Ok enc -> rle_decode g enc = Ok (frame ++ pad_of g).
 Proof.
-  intros g frame Hg Hb Hlen. exists (stream_of (seg_list g frame)).
-  split; [apply rle_encode_closed; assumption|]. intros Hsize.
+  intros g frame enc Hg Hb Hlen He. destruct (encode_ok_inv g frame enc Hg Hlen He) as [Hno ->].
   destruct (seg_list_hyp g frame Hb) as (css & Hl & Hc).
   apply (rle_decode_stream g frame (seg_list g frame) css); try assumption. apply seg_list_length.
 Qed.
-
-Theorem rle_roundtrip : forall g frame, geom_ok g -> bytesP frame -> zlen frame = frame_len g ->
-  exists enc, rle_encode g frame = Ok enc /\
-    (zlen enc <= 2 ^ 32 -> rle_decode g enc = Ok (frame ++ pad_of g)).
-Proof. intros g frame Hg. apply rle_roundtrip_wide. apply geom_ok_wide. exact Hg. Qed.
 
 (* size of the encoded frame: every packet is at most twice its content *)
 Lemma enc_chunks_size : forall cs, Forall chunk_ok cs -> zlen (enc_chunks cs) <= 2 * zlen (dat_chunks cs).
@@ -100,13 +130,20 @@ Proof.
   lia.
 Qed.
 
-Lemma stream_size : forall g frame, geom_wide g -> bytesP frame -> zlen frame = frame_len g ->
-  zlen (stream_of (seg_list g frame)) <= 64 + nseg g * (2 * g_npix g + 1).
+Lemma offsets_from_le : forall segs base,
+  Forall (fun o => o <= base + zlen (body segs)) (offsets_from base segs).
+Proof.
+  induction segs as [|sg r IH]; intros base; [constructor|].
+  cbn [offsets_from]. rewrite body_cons, zlen_app.
+  pose proof (zlen_nonneg _ (padseg sg)). pose proof (zlen_nonneg _ (body r)).
+  constructor; [lia|]. eapply Forall_impl; [|apply IH]. cbv beta. intros; lia.
+Qed.
+
+Lemma seg_list_body_size : forall g frame, geom_wide g -> bytesP frame -> zlen frame = frame_len g ->
+  zlen (body (seg_list g frame)) <= nseg g * (2 * g_npix g + 1).
 Proof.
   intros g frame Hg Hb Hlen.
   assert (Hn : 1 <= nseg g <= 15). { unfold nseg. destruct Hg as (? & ? & ? & ?). nia. }
-  unfold stream_of. rewrite zlen_app, zlen_header.
-  2:{ rewrite zlen_app. unfold zlen. rewrite map_length, offsets_from_length, repeat_length, seg_list_length. lia. }
   assert (zlen (body (seg_list g frame)) <= zlen (seg_list g frame) * (2 * g_npix g + 1)).
   { apply body_size. apply Forall_forall. intros sg Hsg.
     destruct (In_nth _ _ [] Hsg) as (j & Hj & <-). rewrite seg_list_length in Hj.
@@ -116,60 +153,70 @@ Proof.
   unfold zlen at 2 in H. rewrite seg_list_length in H. lia.
 Qed.
 
-(* unconditional round trip for every frame whose worst-case encoding stays below 4 GiB
-   (in particular every native frame of at most 2^31 - 40 bytes) *)
-Theorem rle_roundtrip_bounded : forall g frame, geom_ok g -> bytesP frame -> zlen frame = frame_len g ->
+(* Encode succeeds on every frame whose worst-case encoding stays within 4 GiB, in
+   particular on every native frame of at most 2^31 - 40 bytes. (The last offset is at most
+   64 + body - 2; the bound below is not tight.) *)
+Theorem rle_encode_ok_below_4GiB : forall g frame, geom_ok g -> bytesP frame -> zlen frame = frame_len g ->
   64 + nseg g * (2 * g_npix g + 1) <= 2 ^ 32 ->
-  exists enc, rle_encode g frame = Ok enc /\ rle_decode g enc = Ok (frame ++ pad_of g).
+  exists enc, rle_encode g frame = Ok enc.
 Proof.
   intros g frame Hg Hb Hlen Hbound. pose proof (geom_ok_wide g Hg) as Hw.
-  destruct (rle_roundtrip g frame Hg Hb Hlen) as (enc & He & Hd). exists enc. split; [assumption|].
-  apply Hd. rewrite (rle_encode_closed g frame Hw Hlen) in He. apply Ok_inj in He. subst enc.
-  pose proof (stream_size g frame Hw Hb Hlen). lia.
+  exists (stream_of (seg_list g frame)). apply (rle_encode_err_iff g frame Hg Hlen).
+  destruct (overflows (seg_list g frame)) eqn:E; [|reflexivity]. exfalso.
+  apply overflows_iff in E. destruct E as (j & Hj & Hgt).
+  (* offset j + (padded) segment j <= 64 + body, and segment j is not empty *)
+  pose proof (seg_list_body_size g frame Hw Hb Hlen) as Hsz.
+  rewrite (body_split _ j Hj), !zlen_app in Hsz.
+  pose proof (zlen_nonneg _ (body (skipn (S j) (seg_list g frame)))).
+  rewrite seg_list_length in Hj. rewrite seg_list_nth in Hsz by assumption.
+  assert (Hs : 0 <= Z.of_nat j < nseg g) by lia.
+  destruct (encode_segment_chunks _ (plane_bytes g frame (Z.of_nat j) Hb)) as (cs & E & Hok & Hd).
+  assert (Hne : cs <> []).
+  { intros ->. cbn in Hd. pose proof (plane_zlen g frame (Z.of_nat j) Hw Hlen Hs) as Hp.
+    rewrite <- Hd, zlen_nil in Hp. destruct Hw as (_ & _ & _ & ?). lia. }
+  pose proof (enc_chunks_len2 cs Hok Hne) as H2. rewrite <- E in H2.
+  assert (zlen (encode_segment (plane g frame (Z.of_nat j))) <= zlen (padseg (encode_segment (plane g frame (Z.of_nat j))))).
+  { unfold padseg. rewrite zlen_app. pose proof (zlen_nonneg _ (if Z.odd (zlen (encode_segment (plane g frame (Z.of_nat j)))) then [0] else [])). lia. }
+  change (2 ^ 32) with 4294967296 in Hbound. lia.
 Qed.
-
-(* The statement without any size hypothesis. It is NOT provable for the code as written:
-   NextSegment stores uint32(buffer.Len()) and newRLEDecoder reads the offsets back as
-   32-bit values, so once an offset reaches 2^32 (possible for Rows*Columns near 65535^2 or
-   multi-plane frames above ~4 GiB of incompressible data) the stream no longer decodes. No
-   vm_compute witness is feasible (the smallest counterexample is a 4 GiB frame); the Go-side
-   replay is VERIF_RLE_GIANT in harness/suites/rle. *)
-Definition rle_roundtrip_statement : Prop :=
-  forall g frame, geom_ok g -> bytesP frame -> zlen frame = frame_len g ->
-  exists enc, rle_encode g frame = Ok enc /\ rle_decode g enc = Ok (frame ++ pad_of g).
 
 (* ---------------------------------------------------------------- Annex G validity *)
 
 Theorem rle_stream_valid : forall g frame enc, geom_ok g -> bytesP frame -> zlen frame = frame_len g ->
-  rle_encode g frame = Ok enc -> zlen enc <= 2 ^ 32 ->
-  annexG_valid (g_ba g * g_spp g) enc = true.
+  rle_encode g frame = Ok enc -> annexG_valid (g_ba g * g_spp g) enc = true.
 Proof.
-  intros g frame enc Hg Hb Hlen He Hsize. pose proof (geom_ok_wide g Hg) as Hw.
-  rewrite (rle_encode_closed g frame Hw Hlen) in He. apply Ok_inj in He. subst enc.
+  intros g frame enc Hg Hb Hlen He. pose proof (geom_ok_wide g Hg) as Hw.
+  destruct (encode_ok_inv g frame enc Hw Hlen He) as [Hno ->].
   destruct (seg_list_hyp g frame Hb) as (css & Hl & Hc).
   apply (stream_valid g frame (seg_list g frame) css); try assumption. apply seg_list_length.
 Qed.
 
-(* Part of validity that holds for EVERY size: even length and a 64-byte header in front. *)
-Theorem rle_stream_even : forall g frame enc, geom_ok g -> zlen frame = frame_len g ->
-  rle_encode g frame = Ok enc -> Z.even (zlen enc) = true /\ 64 <= zlen enc.
+(* C01, frame level: for every accepted geometry and every byte frame, if Encode returns a
+   stream then Decode of it is the frame (+ pad) and the stream is valid Annex G. *)
+Theorem rle_roundtrip : forall g frame enc, geom_ok g -> bytesP frame -> zlen frame = frame_len g ->
+  rle_encode g frame = Ok enc ->
+  rle_decode g enc = Ok (frame ++ pad_of g) /\ annexG_valid (g_ba g * g_spp g) enc = true.
 Proof.
-  intros g frame enc Hg Hlen He. pose proof (geom_ok_wide g Hg) as Hw.
-  rewrite (rle_encode_closed g frame Hw Hlen) in He. apply Ok_inj in He. subst enc.
-  assert (Hn : 1 <= nseg g <= 15). { unfold nseg. destruct Hw as (? & ? & ? & ?). nia. }
-  unfold stream_of. rewrite zlen_app, zlen_header.
-  2:{ rewrite zlen_app. unfold zlen. rewrite map_length, offsets_from_length, repeat_length, seg_list_length. lia. }
-  pose proof (zlen_nonneg _ (body (seg_list g frame))).
-  split; [|lia]. rewrite Z.even_add, zlen_body_even. reflexivity.
+  intros g frame enc Hg Hb Hlen He. split.
+  - apply (rle_roundtrip_wide g frame enc); try assumption. apply geom_ok_wide. exact Hg.
+  - apply (rle_stream_valid g frame enc); assumption.
 Qed.
+
+(* Historical note (finding F26, fixed in /repo commit bc7f8bf). Before the fix NextSegment
+   stored uint32(buffer.Len()) unchecked and encodeFrame returned the stream anyway; these
+   theorems then carried the hypothesis zlen enc <= 2^32 and the unrestricted statement was
+   false. Witness replayed on the old code: Rows = Columns = 20000, BitsAllocated 32,
+   SamplesPerPixel 3, colour-by-pixel, xorshift64 content (seed 88172645463325252):
+   encoded length 4837461078, 12th offset stored as 139372060 instead of 4434339356, Decode
+   returned an error. With the fix Encode returns an error for that frame. *)
 
 (* the independent Annex G reader recovers every byte plane from the encoded frame *)
 Theorem rle_independent_reader : forall g frame enc s, geom_ok g -> bytesP frame -> zlen frame = frame_len g ->
-  rle_encode g frame = Ok enc -> zlen enc <= 2 ^ 32 -> 0 <= s < g_ba g * g_spp g ->
+  rle_encode g frame = Ok enc -> 0 <= s < g_ba g * g_spp g ->
   packbits_n (g_npix g) (nth (Z.to_nat s) (segments (g_ba g * g_spp g) enc) []) = Some (plane g frame s).
 Proof.
-  intros g frame enc s Hg Hb Hlen He Hsize Hs. pose proof (geom_ok_wide g Hg) as Hw.
-  rewrite (rle_encode_closed g frame Hw Hlen) in He. apply Ok_inj in He. subst enc.
+  intros g frame enc s Hg Hb Hlen He Hs. pose proof (geom_ok_wide g Hg) as Hw.
+  destruct (encode_ok_inv g frame enc Hw Hlen He) as [Hno ->].
   destruct (seg_list_hyp g frame Hb) as (css & Hl & Hc).
   apply (stream_planes g frame (seg_list g frame) css); try assumption. apply seg_list_length.
 Qed.
@@ -191,15 +238,15 @@ Qed.
 (* ---------------------------------------------------------------- decoder on any legal split *)
 
 (* Any Annex G stream whose segments are legal PackBits encodings of the planes (whatever
-   the packet split) decodes to the frame. *)
+   the packet split) and whose offsets fit 32 bits decodes to the frame. *)
 Theorem rle_decode_any_split : forall g frame (css : list (list chunk)), geom_ok g -> zlen frame = frame_len g ->
   length css = Z.to_nat (nseg g) ->
   (forall j, (j < length css)%nat -> Forall chunk_ok (nth j css []) /\
                                      dat_chunks (nth j css []) = plane g frame (Z.of_nat j)) ->
-  zlen (stream_of (map enc_chunks css)) <= 2 ^ 32 ->
+  overflows (map enc_chunks css) = false ->
   rle_decode g (stream_of (map enc_chunks css)) = Ok (frame ++ pad_of g).
 Proof.
-  intros g frame css Hg Hlen Hl Hc Hsize. pose proof (geom_ok_wide g Hg) as Hw.
+  intros g frame css Hg Hlen Hl Hc Hno. pose proof (geom_ok_wide g Hg) as Hw.
   apply (rle_decode_stream g frame (map enc_chunks css) css); try assumption.
   - rewrite map_length. assumption.
   - rewrite map_length. reflexivity.
@@ -259,34 +306,18 @@ Proof.
 Qed.
 
 (* C01 for the Go entry point decodeFrame with its FrameInfo argument (allocation included) *)
-Theorem rle_roundtrip_frameinfo : forall fi frame, fi_ok fi -> bytesP frame ->
+Theorem rle_roundtrip_frameinfo : forall fi frame enc, fi_ok fi -> bytesP frame ->
   zlen frame = frame_len (fi_geom fi) ->
-  exists enc, rle_encode (fi_geom fi) frame = Ok enc /\
-    (zlen enc <= 2 ^ 32 -> rle_decode_frame fi enc = Ok (frame ++ pad_of (fi_geom fi))).
+  rle_encode (fi_geom fi) frame = Ok enc ->
+  rle_decode_frame fi enc = Ok (frame ++ pad_of (fi_geom fi)).
 Proof.
-  intros fi frame Hfi Hb Hlen. destruct (fi_ok_geom fi Hfi) as [Hg Hsz].
-  destruct (rle_roundtrip (fi_geom fi) frame Hg Hb Hlen) as (enc & He & Hd).
-  exists enc. split; [assumption|]. intros Hsize. unfold rle_decode_frame.
-  destruct (rle_stream_even (fi_geom fi) frame enc Hg Hlen He) as [_ H64].
+  intros fi frame enc Hfi Hb Hlen He. destruct (fi_ok_geom fi Hfi) as [Hg Hsz].
+  destruct (rle_roundtrip (fi_geom fi) frame enc Hg Hb Hlen He) as [Hd Hv].
+  unfold rle_decode_frame.
+  assert (H64 : 64 <= zlen enc).
+  { unfold annexG_valid in Hv. repeat (apply andb_prop in Hv; destruct Hv as [Hv ?]).
+    apply Z.leb_le. assumption. }
   destruct (Z.eqb_spec (zlen enc) 0); [lia|].
   destruct (Z.gtb_spec (frame_size (fi_geom fi)) max_alloc); [lia|].
-  apply Hd. assumption.
+  exact Hd.
 Qed.
-
-(* ---------------------------------------------------------------- naming per CONVENTIONS *)
-(* rle_roundtrip / rle_stream_valid / rle_independent_reader are the *_partial forms of the
-   unrestricted statements: what is missing is exactly the case zlen enc > 2^32, where the
-   unrestricted statements are false for the code (32-bit offsets). *)
-Definition rle_stream_valid_statement : Prop :=
-  forall g frame enc, geom_ok g -> bytesP frame -> zlen frame = frame_len g ->
-  rle_encode g frame = Ok enc -> annexG_valid (g_ba g * g_spp g) enc = true.
-
-Theorem rle_roundtrip_partial : forall g frame, geom_ok g -> bytesP frame -> zlen frame = frame_len g ->
-  exists enc, rle_encode g frame = Ok enc /\
-    (zlen enc <= 2 ^ 32 -> rle_decode g enc = Ok (frame ++ pad_of g)).
-Proof. exact rle_roundtrip. Qed.
-
-Theorem rle_stream_valid_partial : forall g frame enc, geom_ok g -> bytesP frame -> zlen frame = frame_len g ->
-  rle_encode g frame = Ok enc -> zlen enc <= 2 ^ 32 ->
-  annexG_valid (g_ba g * g_spp g) enc = true.
-Proof. exact rle_stream_valid. Qed.
